@@ -25,6 +25,9 @@ Parts
                   (compared modulo ASCII case of scheme and host, RFC 3986 6.2.2.1; userinfo is case-sensitive)
   navigate-pct    segments with an escaped percent sign ('%252e%252e' is the literal text '%2e%2e', an ordinary
                   segment): compared in the fully quoted rendering, the one that writes a literal '%' as '%25'
+  navigate-queries queries whose keys / values carry percent-encoded query delimiters ('k%3D1=v', '%26', 'x%2By=%3D'; one
+                  and two pairs, with / without '='), as the reference's query and as the base's (inherited or dropped)
+  navigate-self   base.navigate(base): the base object itself as the (absolute) reference, parsed and after normalize()
   navigate-long   directed (not exhaustive): references and base paths of 15 .. 1025 repeated units
   absolute        references that carry their own scheme and host (replace the base entirely)
   chain           base.navigate(r1).navigate(r2) against the reference applied step by step
@@ -259,10 +262,11 @@ ENC_BASES = (
     'http://a/b%2F./c', 'x://h/p%2Fq/r',
     'http://a/b%3Fc/d%23e/f', 'http://a/b/http://x/y', 'http://a/\u00e9/d',
     'http://a/b/c?x=a%26b&y=%3D', 'http://a/b/c?n=http://x/y#x://h',
+    'http://u%40x:p%3Aw@a/b/c', 'http://u%3Ax:p%2Fw@a:8080/b/c?q#f%23g',       # encoded delimiters in the userinfo
 )
 CHAIN_ENC_BASES = ('http://a/b%2Fc/d', 'http://a', 'http://u:pw@a:8080/r%2Fs/t/?q#f')
 DELIM_QUERIES = (None, 'y/z?w', 'n=http://x/y', '//h/p', 'a:b@c')
-DELIM_FRAGMENTS = (None, 's?t/u', '?', '/', 'x://h/p', '//h', 'a:b@c')
+DELIM_FRAGMENTS = (None, 's?t/u', '?', '/', 'x://h/p', '//h', 'a:b@c', 's%23t')
 NAME_BASES = ('http://a', 'http://a/b/c', 'http://a/b/c/', 'http://a/.g/...', 'http://a/b/g../', 'x://h/p')
 CHAIN_BASES = ('http://a', 'http://a/b/c/d;p?q', 'https://host/a/', 'http://a/b//c?q#f',
                'http://u:pw@a:8080/b/c', 'x://h/p/q', 'http://a/', 'http://a/b/c/..', 'http://a:80/b',
@@ -316,6 +320,25 @@ PCT_SEGMENTS = ('..', '', 'g', '%252e%252e', '%252E', '%2525', '100%25', '%25252
 PCT_BASES = ('http://a/b/c', 'http://a/%252e%252e/b', 'http://a/100%2525/x?q', 'http://a/b/%252E/', 'http://a')
 PCT_QF = ((None, None), ('k=%2541', '%2523'))
 CHAIN_PCT_SEGMENTS = ('..', 'g', '%252e%252e', '%2525')
+
+
+# Queries as key/value lists whose keys and values carry percent-encoded query delimiters ('=' %3D, '&' %26, '+' %2B,
+# '#' %23): a pair is one pair and a key is one key whatever they decode to.  Spellings that URL renders back unchanged.
+QUERY_KEYS = ('k', 'k%3D1', '%3D', 'a%26b', 'x%2By', 'h%23s')
+QUERY_VALUES = (None, '', 'v', '%3D', 'v%26w', 'p%2Bq')         # None: a key without '='
+QUERY_REF_BASES = ('http://a', 'http://a/b/c?q', 'http://u:pw@a:8080/b/c/?t=1&k%3D1=0#f')
+
+
+def _pair(k, v):
+    return k if v is None else k + '=' + v
+
+
+def enc_queries():
+    """Every single pair over QUERY_KEYS x QUERY_VALUES, then every two pairs over the first 3 keys x first 4 values."""
+    out = [_pair(k, v) for k in QUERY_KEYS for v in QUERY_VALUES]
+    small = [_pair(k, v) for k in QUERY_KEYS[:3] for v in QUERY_VALUES[:4]]
+    out += [a + '&' + b for a in small for b in small]
+    return out
 
 
 def ref_paths(kind, alphabet, maxseg):
@@ -603,6 +626,14 @@ def eval_navigate(URL, bi, ref, objects=False, stats=None):
         after = snapshot(base2)
         if after != bi.snap and not modified:
             out.append(('C07|fn:navigate|base-modified', bi.snap, after, tags + ['dest_is_URL_object']))
+        if objects:
+            # second use of the same reference object: again the target of the text it renders to (now)
+            now_text = _render(dest, fq)
+            obs_obj2 = _render(URL(bi.text).navigate(dest), fq)
+            obs_txt2 = obs_txt if now_text == dest_text else _render(URL(bi.text).navigate(now_text), fq)
+            if obs_obj2 != obs_txt2:
+                out.append(('C07|fn:navigate|URL-object-dest-second-use-differs-from-its-text', obs_txt2, obs_obj2,
+                            tags + ['dest_is_URL_object']))
     except Exception as e:
         out.append(('C07|fn:navigate|raised(URL-object-dest)', None, 'raised %s' % type(e).__name__, tags))
     # the returned URL is a new object: using it must not reach back into the base
@@ -616,6 +647,56 @@ def eval_navigate(URL, bi, ref, objects=False, stats=None):
             out.append(('C07|fn:navigate|result-not-a-usable-URL', None, 'raised %s' % type(e).__name__, tags))
     if objects:
         eval_object_states(URL, bi, ref, obs, out, stats)
+    return out
+
+
+def eval_self(URL, bi):
+    """The base handed to its own navigate() as the reference *object* (base.navigate(base); a page resolving a list
+    of links that contains its own URL object), fresh and after normalize(): a reference with its own scheme and host,
+    so the target is the base text resolved against itself; the base object must come out as it went in and the result
+    must be another object that shares no mutable state with it."""
+    out = []
+    if not in_domain(bi.split) or bi.split[0] is None:
+        return out
+    exp_t = expected_target(bi.split, bi.split)
+    fq = wants_full_quote(bi.text)     # only with SELF_ESCAPED_PERCENT (see shard_self)
+    fold = has_ascii_upper(bi.split)
+    for state in ('parsed', 'normalized'):
+        tags = _tags(bi.split, bi.split) + ['dest_is_base_object', 'base_' + state]
+        try:
+            base = URL(bi.text)
+            if state == 'normalized':
+                base.normalize()
+            before = snapshot(base)
+            before_fq = _render(base, True)
+        except Exception:
+            continue                   # normalize() on its own is the normalize part's business
+        try:
+            res = base.navigate(base)
+            obs = _render(res, fq)
+        except Exception as e:
+            out.append(('C07|fn:navigate(self)|raised', recompose(canon(exp_t)), 'raised %s' % type(e).__name__, tags))
+            continue
+        compare('navigate(self)', exp_t, obs, 'absolute-url', out, tags, fold)
+        try:
+            after = snapshot(base)
+            if after == before and _render(base, True) != before_fq:
+                after = _render(base, True)
+        except Exception as e:
+            after = 'raised %s' % type(e).__name__
+        if after != before:
+            out.append(('C07|fn:navigate(self)|base-modified', before, after, tags))
+            continue
+        if res is base:
+            out.append(('C07|fn:navigate(self)|result-is-the-base-object', 'a new URL', 'the base itself', tags))
+            continue
+        try:
+            _mutate_result(res)
+            after = snapshot(base)
+            if after != before:
+                out.append(('C07|fn:navigate(self)|result-shares-mutable-state-with-base', before, after, tags))
+        except Exception as e:
+            out.append(('C07|fn:navigate(self)|result-not-a-usable-URL', None, 'raised %s' % type(e).__name__, tags))
     return out
 
 
@@ -810,6 +891,44 @@ def shard_long(arg, t, g):
             t.count(nontrivial=True, sample={'part': 'navigate-long', 'n': n, 'base': base[:40], 'ref': ref[:40]}
                     if len(t.samples) < 2 else None)
             _record(t, case, g.call(case, eval_navigate, URL, bi, ref, objects, None))
+
+
+# Genuine defect seen on the unchanged tree (fixes/C07-5-url-copy-keeps-escaped-percent): URL(url_object) copies through
+# the plain rendering, so base.navigate(base) of 'http://a/%252e%252e/b' gives 'http://a/b'.  Switch on once that is fixed.
+SELF_ESCAPED_PERCENT = True
+
+
+def self_bases(hosts):
+    """Every base text of the other parts that has a host, plus long and mixed-case ones with dot segments."""
+    out = []
+    for b in (BASES + ENC_BASES + NAME_BASES + CHAIN_BASES + ABS_BASES + PCT_BASES + LONG_BASES + QUERY_REF_BASES
+              + tuple(hosts) + tuple(long_base(n) for n in LONG_SIZES)
+              + tuple('http://a/' + 'b/./c/../' * n + '?q#f' for n in LONG_SIZES)
+              + ('HTTP://Www.Example.COM/docs/./v1/../v2/?k=v#top', 'HTTP://A', 'http://A/b/..', 'X://H/p/./q',
+                 'http://u:pw@A:8080/b/../c', 'http://[::1]/b/../c/.', 'http://a/b/c?k%3D1=v&%26=%3D#f')):
+        if b not in out:
+            out.append(b)
+    return out
+
+
+def shard_self(arg, t, g):
+    URL = _url()
+    for base in arg['bases']:
+        try:
+            URL(base)
+        except Exception:
+            t.add('skipped_host_not_accepted_by_URL')
+            continue
+        if wants_full_quote(base) and not SELF_ESCAPED_PERCENT:
+            # URL(url_object) copies through the plain rendering, which writes an escaped percent sign back as a bare
+            # '%' ('/%252e%252e/' -> '/%2e%2e/' -> '..'): as everywhere else, URL objects as references are not
+            # explored for these texts
+            t.add('skipped_escaped_percent_with_URL_object_reference')
+            continue
+        bi = _base_info(g, URL, 'navigate-self', base)
+        case = {'part': 'navigate-self', 'base': bi.text, 'refs': [bi.text], 'self': True}
+        t.count(nontrivial=path_is_nontrivial(bi.split[2]), sample=case if len(t.samples) < 2 else None)
+        _record(t, case, g.call(case, eval_self, URL, bi))
 
 
 HOST_REFS = ('', 'g', './g', '../g', '/g', 'g/', '..', '../../h/./i?y#s', '?y', '#s', '/')
@@ -1026,6 +1145,22 @@ def run(ctx):
             for base in PCT_BASES for kind in ('abs', 'rel')]
     inputs.run_shards(ctx, _guarded(shard_navigate), args, part='navigate-pct', rule=rule)
 
+    # queries whose keys / values carry percent-encoded query delimiters: in the reference (replaces the base query)
+    # and in the base (inherited by path-less references without a query, dropped otherwise)
+    eq = enc_queries()
+    args = [{'part': 'navigate-queries', 'base': base, 'kind': kind, 'alphabet': SEGMENTS, 'maxseg': 1,
+             'qf': [(q, f) for q in eq[i::4] for f in FRAGMENTS], 'object_maxseg': 1}
+            for base in QUERY_REF_BASES for kind in ('abs', 'rel') for i in range(4)]
+    args += [{'part': 'navigate-queries', 'base': 'http://a/b/c?' + q + frag, 'kind': kind, 'alphabet': SEGMENTS, 'maxseg': 1,
+              'qf': [(None, None), (None, 's'), ('y', None)], 'object_maxseg': 1}
+             for j, q in enumerate(eq) for frag in (('', '#f')[j % 2],) for kind in ('abs', 'rel')]
+    inputs.run_shards(ctx, _guarded(shard_navigate), args, part='navigate-queries', rule=rule)
+
+    # the base object itself as the reference (base.navigate(base)), parsed and after normalize()
+    sb = self_bases(hosts)
+    args = [{'part': 'navigate-self', 'bases': sb[i::16]} for i in range(16)]
+    inputs.run_shards(ctx, _guarded(shard_self), args, part='navigate-self', rule=rule)
+
     # directed, not exhaustive: references / base paths of many segments (sizes around powers of two)
     args = [{'part': 'navigate-long', 'n': n} for n in LONG_SIZES]
     inputs.run_shards(ctx, _guarded(shard_long), args, part='navigate-long', rule=rule)
@@ -1086,7 +1221,10 @@ def run(ctx):
                          hostless_bases=list(HOSTLESS_BASES), host_bases=hosts, host_refs=list(HOST_REFS),
                          host_ref_bases=list(HOST_REF_BASES), pct_segments=list(PCT_SEGMENTS),
                          pct_bases=list(PCT_BASES), pct_query_fragment=[list(x) for x in PCT_QF],
-                         chain_pct_segments=list(CHAIN_PCT_SEGMENTS))
+                         chain_pct_segments=list(CHAIN_PCT_SEGMENTS),
+                         query_keys=list(QUERY_KEYS), query_values=['<no "=">' if v is None else v for v in QUERY_VALUES],
+                         encoded_queries=len(eq), query_ref_bases=list(QUERY_REF_BASES),
+                         query_base='http://a/b/c?<query>[#f]', self_bases=len(sb))
     cov['directed_parts'] = {'navigate-long': 'not exhaustive in any sense beyond its own list: %d reference patterns '
                              'of n..5n segments per base, n in long_sizes' % len(long_refs(1))}
     ctx.assumptions += [
@@ -1118,6 +1256,16 @@ def run(ctx):
         'path-absolute, path-relative, query-only, fragment-only, empty and scheme+host references)',
         'expected text = RFC 3986 5.2 target with dot segments removed, compared modulo "empty path under an '
         'authority == /" and "explicit default port (http 80, https 443, ftp 21) == no port"',
+        'queries with percent-encoded query delimiters (navigate-queries): every single key[=value] pair over query_keys x '
+        'query_values and every two pairs over the first 3 keys x first 4 values, as the query of references of <= 1 '
+        'segment and as the query of the base http://a/b/c; "+" / %20 (re-spelled by URL), more than two pairs and ";" '
+        'separators are not explored',
+        'navigate-self: base.navigate(base) - the base object itself as a reference with its own scheme and host - for every '
+        'base text of the other parts that has a host (parsed and after normalize()); bases without a host are left out '
+        '(a reference with a scheme but no host is outside the statement), and so are texts with an escaped percent sign '
+        '(URL(url_object) copies through the plain rendering; counted as skipped_escaped_percent_with_URL_object_reference).  A reference URL object that is not the base '
+        'may be modified by navigate(): the statement protects only the base; its second use must still resolve to the '
+        'target of the text it then renders to',
         'chained navigation: the reference is applied step by step, each intermediate result normalized as the '
         'single-step property demands; the chain menu has no empty "?" query',
         'a URL object given as destination is compared with navigating to that object\'s own text',
@@ -1150,7 +1298,9 @@ def _replay(ctx, data, case):
     else:
         bi = BaseInfo(URL, case['base'])
         refs = case['refs']
-        if len(refs) == 1:
+        if case.get('self'):
+            res = eval_self(URL, bi)
+        elif len(refs) == 1:
             res = eval_navigate(URL, bi, refs[0], objects=bool(case.get('objects')))
         else:
             res = _chain_fresh(URL, bi, refs[0], refs[1])
